@@ -736,7 +736,11 @@ let rec run_roundtrip (args : sx list) : sx =
                           L [A "parse-bridge"; (match query_toks e q with
                                                 | Ok ts -> sx_bool (compile_tokens e re_ok_oracle ts = Ok (norm_query q))
                                                 | Err x -> A (exn_name x))];
-                          L [A "norm-is-reparse"; sx_bool (q2 = norm_query q)]]))
+                          L [A "norm-is-reparse"; sx_bool (q2 = norm_query q)];
+                          (* the hypotheses of the C10 theorems, evaluated on the compiled query *)
+                          L [A "in-domain"; sx_bool (c10_domain e re_ok_oracle q)];
+                          L [A "floats-ok"; sx_bool (floats_ok q)];
+                          L [A "floats-stable"; sx_bool (floats_stable q)]]))
        with Unsupported_case w -> L [A "unsupported"; A w])
   | _ -> failwith "roundtrip: bad args"
 
